@@ -140,6 +140,11 @@ func genCase(rng *rand.Rand, cfg Cfg, name string, dist func(string)) *Case {
 	for _, ln := range lanes {
 		_ = ln
 	}
+	// connections are opened in lane order (the server numbers them in that order); with several
+	// lanes the idle time-out is longer so that a lane waiting for its turn does not expire
+	if len(lanes) > 1 {
+		c.IdleMs = 2500
+	}
 	for i := range lanes {
 		c.Ops = append(c.Ops, Op{Kind: "accept", Conn: i})
 	}
@@ -176,10 +181,21 @@ func genCase(rng *rand.Rand, cfg Cfg, name string, dist func(string)) *Case {
 			c.Ops = append(c.Ops, Op{Kind: "send", Conn: ln.id, Data: data})
 		}
 	}
+	// at most one connection is left silent, and only after the others were closed (a silent
+	// wait lets every other open connection run into its own deadline)
+	idle := -1
 	for _, ln := range lanes {
-		if ln.end != "none" {
-			c.Ops = append(c.Ops, Op{Kind: ln.end, Conn: ln.id})
+		if ln.end == "idle" && idle < 0 {
+			idle = ln.id
 		}
+	}
+	for _, ln := range lanes {
+		if ln.id != idle && (ln.end != "none" || idle >= 0) {
+			c.Ops = append(c.Ops, Op{Kind: "eof", Conn: ln.id})
+		}
+	}
+	if idle >= 0 {
+		c.Ops = append(c.Ops, Op{Kind: "idle", Conn: idle})
 	}
 	return c
 }
